@@ -115,8 +115,11 @@ func solve(fset *token.FileSet, out types.Type, given *types.Tuple, set *Provide
 		up   *frame
 	}
 	stk := []frame{{t: out}}
+	verifEnter("solve", set.providerMap.Len())
+	defer verifLeave("solve")
 dfs:
 	for len(stk) > 0 {
+		verifStep("solve")
 		curr := stk[len(stk)-1]
 		stk = stk[:len(stk)-1]
 		if index.At(curr.t) != nil {
@@ -441,10 +444,13 @@ func verifyAcyclic(providerMap *typeutil.Map, hasher typeutil.Hasher) []error {
 	// Sort output types so that errors about cycles are consistent.
 	outputs := providerMap.Keys()
 	sort.Slice(outputs, func(i, j int) bool { return types.TypeString(outputs[i], nil) < types.TypeString(outputs[j], nil) })
+	verifEnter("acyclic", providerMap.Len())
+	defer verifLeave("acyclic")
 	for _, root := range outputs {
 		// Depth-first search using a stack of trails through the provider map.
 		stk := [][]types.Type{{root}}
 		for len(stk) > 0 {
+			verifStep("acyclic")
 			curr := stk[len(stk)-1]
 			stk = stk[:len(stk)-1]
 			head := curr[len(curr)-1]
